@@ -22,7 +22,11 @@ ENGINES = [
                        "small-dimension oracles"},
 ]
 
-NOTES = ("All checks execute the implementation in /repo directly (sys.path[0]=/repo, fresh import per process); "
+NOTES = ("Every solve-level (solvex) check also runs its monitors over the broad option bank (vf/cfgs.py: every documented "
+         "user parameter at a non-default value inside its feature, pairwise overlays with averaging and soft restarts, "
+         "the smallest and largest accepted value of every numeric parameter) and must reach every call site of "
+         "Controller.evaluate_objective found in the tree's AST, or name the site as exempt with a reason "
+         "(coverage.evaluation_sites in the evidence). All checks execute the implementation in /repo directly (sys.path[0]=/repo, fresh import per process); "
          "exit 0 = held on everything explored, 1 = VIOLATION lines, 2 = harness error. VERIF_SEED selects one of 8 "
          "pre-validated data salts; thorough runs all 8.")
 
@@ -88,7 +92,8 @@ CHECKS = {
     },
     "C06": {
         "engine": "gridx", "level": "exploration",
-        "text": "shape x lambda decades x {L1, L2-norm} x box pattern x x0 x calling convention (closures / argsh+argsprox) x "
+        "text": "shape x lambda decades (+ lambda = 0.7, 1.5, 4 x ||2A'b||_inf started from the least-squares solution) x "
+                "{L1, L2-norm} x box pattern x x0 x calling convention (closures / distinguishable argsh+argsprox) x "
                 "scaling rows, compared with the exact regularised optimum (enumeration of sign/active patterns for L1; "
                 "accelerated proximal gradient + SLSQP for the L2 norm, cross-checked on L1); extra arguments recorded on "
                 "every call of h and prox",
@@ -109,8 +114,9 @@ CHECKS = {
     },
     "C09": {
         "engine": "solvex", "level": "exploration",
-        "text": "all subsets (size<=3) of a bank of six convex sets x three bound settings x four starting points x restart "
-                "modes x functions (incl. a 'pull' objective whose solution sits where a box face crosses a curved boundary); "
+        "text": "all subsets (size<=3) of a bank of six convex sets x three bound settings x six starting points (incl. "
+                "infeasible by 1e-7) x restart modes x functions, the same geometry translated far from the origin, feature "
+                "rows that select every evaluation site that exists under projections (incl. a 'pull' objective whose solution sits where a box face crosses a curved boundary); "
                 "every evaluated point is matched by its bytes against the outputs of the wrapped projection routine and "
                 "checked against the sqrt(p*tol) bound / exact box",
         "note": "n=2 quick, n<=3 thorough; a projection call with sweeps == max_iter counts as 'hit the cap'",
